@@ -65,6 +65,7 @@ type Contract struct {
 	Ghosts    []*Clause
 	Refines   string
 	FreshRes  bool
+	AtomicPanics bool // "atomic_panics": additionally prove that nothing caller-visible is written before a panic
 }
 
 type Lemma struct {
@@ -86,7 +87,7 @@ var clauseKeywords = map[string]bool{
 	"for": true, "end": true, "spec": true, "func": true, "lemma": true, "props": true,
 	"requires": true, "ensures": true, "panics_when": true, "errors_when": true, "modifies": true,
 	"loop": true, "decreases": true, "model": true, "trusted": true, "pure": true, "inline": true,
-	"nosafe": true, "unroll": true, "refines": true, "may_panic": true,
+	"nosafe": true, "atomic_panics": true, "unroll": true, "refines": true, "may_panic": true,
 }
 
 // ParseContractFile reads the //@ lines of one file.
@@ -295,6 +296,8 @@ func ParseContractFile(path, pkg string, cf *ContractFile) error {
 				c.Inline = true
 			case "nosafe":
 				c.NoSafe = true
+			case "atomic_panics":
+				c.AtomicPanics = true
 			case "model":
 				c.Model = rest
 			case "refines":
